@@ -4,7 +4,7 @@ from gen_structure import *  # noqa
 PROP_FILES = ["Structure/Properties_C06.v"]
 MANIFEST = dict(
     technique="Coq proof (commuting per-entry updates + induction over the tree; case analysis of the limit check) on a Gallina model of StructureScanState / StructureChecker, glob answers entering as oracle columns; tied by differential execution on real directory trees (both scanner back-ends, library pipeline and the real CLI) and on arbitrary DirStats maps",
-    text="Theorems C06_counts_exact (for every tree with distinct sibling names and EVERY processing order of the walked entries the dir_stats map equals the true counts), C06_order_independent, C06_fail_iff, C06_zero_forbids, C06_unlimited_disables, C06_warn_iff, C06_last_rule_wins_with_inheritance, C06_relative_depth (components of the normalised directory path minus the scope's literal prefix, fixes/D47), C06_relative_depth_root_independent, C06_walk_depth_vs_project_depth, C06_explain_same_limits hold without bounds; several scan roots collapse to the outermost ones (Structure/Roots.v, theorems C07_roots_*, fixes/D50) so one directory has one record. The tie to the Rust code: generated trees (width<=12, depth<=7, hidden entries, empty dirs, symlinks/FIFOs, ignored and excluded subtrees, count_exclude) x generated [structure] configurations, observed through the library pipeline (full dir_stats), `check --format json` and `explain --format json`, compared with the extracted model, with the generator's own count of the tree it built and with the Coq spec of the verdicts.",
+    text="Theorems C06_counts_exact (for every tree with distinct sibling names and EVERY processing order of the walked entries the dir_stats map equals the true counts), C06_order_independent, C06_fail_iff, C06_zero_forbids, C06_unlimited_disables, C06_warn_iff, C06_last_rule_wins_with_inheritance, C06_relative_depth (components of the normalised directory path minus the scope's literal prefix, fixes/D47), C06_relative_depth_root_independent, C06_walk_depth_vs_project_depth, C06_explain_same_limits, C06_file_root_has_no_stats (a file given as scan root leaves no directory record, fixes/D130) hold without bounds; several scan roots collapse to the outermost ones (Structure/Roots.v, theorems C07_roots_*, fixes/D50) so one directory has one record. The tie to the Rust code: generated trees (width<=12, depth<=7, hidden entries, empty dirs, symlinks/FIFOs, ignored and excluded subtrees, count_exclude) x generated [structure] configurations, observed through the library pipeline (full dir_stats), `check --format json` and `explain --format json`, compared with the extracted model, with the generator's own count of the tree it built and with the Coq spec of the verdicts.",
     note="Trusted: Coq kernel, extraction, harness sgv-structure (oracle columns are computed with the real compiled globset matchers of the real configuration), python generators. Not modelled: walkdir/ignore traversal and .gitignore semantics (the ignored set enters as data and is cross-checked against the generator's reading of the few ignore forms it writes), f64 parsing of TOML, absolute scan roots other than as superfluous extra roots (the roots walked are `t` and `./t`; requests of several roots at or below t in all spellings, and resolve_scan_paths on arbitrary requests, are covered; since fixes/D07 every pattern site matches the normalised path and the check holds both spellings, `./`-spelled scopes, excludes and DirStats keys to the same answers).",
     ref="5 (C06)")
 
@@ -22,7 +22,7 @@ def run(ctx):
     ctx.cov["rule"] = ("seeded generator: real directory trees under a sandbox (scan root spelled `t` or `./t`; scopes, excludes and DirStats keys also written with a leading `./`; width<=12, depth<=7; hidden names, empty dirs, symlinks to file/dir/nothing, FIFOs; "
                        ".gitignore files with name/extension/anchored/dir-only forms; scanner.exclude and count_exclude patterns of nine forms, among them separator-free patterns that match an entry by its path and not by its name: *gen*, t?gen*, t*.rs) x [structure] configurations "
                        "(global and per-rule limits placed within +-2 of real figures, -1/0, warn_*_at, percentage thresholds, overlapping scopes, relative_depth, 6% rejected configurations), command-line -x/--exclude patterns (35%), requests of several scan roots (22%), "
-                       "run through the library pipeline with both back-ends, every 5th also through `sgcli check` + `explain`; plus StructureChecker::check on arbitrary DirStats maps with "
+                       ".gitignore files in the project directory ABOVE the scan root (30%), count-excluded empty directories, scopes written with a trailing separator; run through the library pipeline with both back-ends, every 5th also through `sgcli check` + `explain`; a scanned file of 60 cases given as the only scan root on the real CLI (no directory result may appear, fixes/D130); plus StructureChecker::check on arbitrary DirStats maps with "
                        "figures at limit-1/limit/limit+1 and around every warn point. non-trivial = distinct case in which a directory lies within +-1 of an applicable limit, is matched by a rule, "
                        "or a limit violation/warning is produced")
     ctx.cov["trusted_base"] = TRUSTED_COMMON + [
